@@ -3,7 +3,7 @@
 # usage: tools/tryseed.sh <seed-id> [extra bin/check args]
 V=$(cd "$(dirname "$0")/.." && pwd)
 id=$1; shift
-P=$(echo $id | cut -d_ -f1)
+P=${PROP:-$(echo $id | cut -d_ -f1)}
 wt=/tmp/ts_$id.$$
 git -C /repo worktree add -q --detach $wt HEAD >/dev/null 2>&1 || exit 3
 git -C $wt apply $V/seeded/$id/patch.diff || { git -C /repo worktree remove --force $wt; exit 3; }
